@@ -1,7 +1,12 @@
 import FixModel.Sched.Skeleton
+import FixModel.Sched.Norm
 import FixModel.Generated.Facts
 /-!
 # the session model's tie to the source (T-gen), shared by C06 C07 C09 C10 C14 C15 C16
+
+The skeleton regenerated from /repo is equivalent (`SkelNorm.equiv`: same closures, same set of operations in every
+scope) to the one the model was written against.
 -/
 
-theorem session_skeleton : Generated.sessionSkeleton = SessionSkeleton.expectedSkeleton := by decide
+theorem session_skeleton :
+    SkelNorm.equiv Generated.sessionSkeleton SessionSkeleton.expectedSkeleton = true := by decide +kernel
